@@ -297,3 +297,21 @@ Proof.
   split; [vm_compute; reflexivity|]. split; [vm_compute; reflexivity|]. split; [vm_compute; reflexivity|].
   eexists. eexists. split; [vm_compute; reflexivity|]. vm_compute. repeat split.
 Qed.
+
+(** WHY THE BOUND COUNTS EXPIRIES (and why fairness of the Go scheduler is still assumed for "eventually").
+    AddDependency(context.Background(), res) on a resource nobody uses yet decides its release; the release
+    goroutine marks the resource invalid and is then starved before its Cleanup callback runs (the callback is
+    what gives the slot a fresh resource).  A rerunner reading that slot now registers an invalid resource in
+    every run, is invalidated by addOut's shouldInvalidate, and re-runs: under this unfair scheduler 200 task
+    labels execute 14 runs without any injection, the release goroutine still standing at its second critical
+    section.  Every one of these re-runs is one expiry: [every_schedule_is_bounded] holds with n = 14. *)
+Definition ex_spin : state :=
+  match run (init 1 [([ODep 0], true)]) [LOutside 0; LTask 1 0; LTask 2 0] with Some s => s | None => init 0 [] end.
+Example ex_spin_when_cleanup_is_starved :
+  s_tasks ex_spin = [(0, [FRunWait 0]); (2, [FRelMark 0])] /\
+  exists s' n, irun ex_spin (drive_skip 200 2 ex_spin) = Some (s', n) /\
+    length (drive_skip 200 2 ex_spin) = 200 /\ n = 14 /\ r_runs (getr s' 0) = 14 /\
+    find_task (s_tasks s') 2 = Some [FRelMark 0].
+Proof.
+  split; [vm_compute; reflexivity|]. eexists. eexists. split; [vm_compute; reflexivity|]. vm_compute. repeat split.
+Qed.
